@@ -165,6 +165,10 @@ void Exec::op_read(Client &c) {
 		mpq_QSline_reader_set_error_collector(rd, col);
 		q = mpq_QSget_prob(rd, "fromreader", fmt.c_str());
 		nerr = mpq_QSerror_memory_get_nerrors(mem);
+		// what the collector kept is walked and printed to a stream of the caller's, which the caller then closes itself
+		{ world.expected_paths.insert("/sim/errors.txt"); FILE *ef = sim_open_cookie("/sim/errors.txt", "w"); int shown = 0;
+			if (ef) { for (mpq_QSformat_error e = mpq_QSerror_memory_get_last_error(mem); e && shown < 40; e = mpq_QSerror_memory_get_prev_error(e)) { mpq_QSerror_print(ef, e); (void)mpq_QSerror_get_type(e); (void)mpq_QSerror_get_desc(e); (void)mpq_QSerror_get_line_number(e); (void)mpq_QSerror_get_pos(e); (void)mpq_QSerror_get_line(e); shown++; }
+				fclose(ef); probe("reader.collected_errors_printed", shown); } }
 		mpq_QSline_reader_free(rd); mpq_QSerror_collector_free(col); mpq_QSerror_memory_free(mem);
 		maxpolls = src.maxpolls;
 	} else { q = mpq_QSread_prob(path.c_str(), fmt.c_str()); maxpolls = world.max_eof_polls; }
